@@ -161,7 +161,12 @@ func (m *Message) Root() (Ptr, error) {
 	if err != nil {
 		return Ptr{}, annotate(err).errorf("read root")
 	}
-	p, err := s.root().At(0)
+	root := s.root()
+	if root.Len() == 0 {
+		// The first segment is shorter than one word: there is no root pointer.
+		return Ptr{}, newError("read root: first segment too short for a root pointer")
+	}
+	p, err := root.At(0)
 	if err != nil {
 		return Ptr{}, annotate(err).errorf("read root")
 	}
@@ -174,7 +179,11 @@ func (m *Message) SetRoot(p Ptr) error {
 	if err != nil {
 		return annotate(err).errorf("set root")
 	}
-	if err := s.root().Set(0, p); err != nil {
+	root := s.root()
+	if root.Len() == 0 {
+		return newError("set root: first segment too short for a root pointer")
+	}
+	if err := root.Set(0, p); err != nil {
 		return annotate(err).errorf("set root")
 	}
 	return nil
